@@ -624,14 +624,50 @@ func ruleR04_4(c *Check) {
 				}
 			}
 		}
-		if rev == 0 && op == token.LSS {
-			okF = true
+		if rev <= 0 && op == token.LSS {
+			okF = true // ascending when not reversed (or always: then the reversal must be explicit, below)
 		}
 		if rev == 1 && op == token.GTR {
 			okR = true
 		}
 		return true
 	})
+	if !okR {
+		// alternative: sorted ascending, then mirrored under `reversed` (x[len-1-i] = e, or a Reverse call)
+		np.walkDeep(func(own *Fn, n ast.Node) bool {
+			underRev := false
+			for _, g := range w.Guards(own, n) {
+				if id, ok := unparen(g.Cond).(*ast.Ident); ok && g.Val {
+					if pv, ok := w.Use(id).(*types.Var); ok && isParam(np, pv) {
+						underRev = true
+					}
+				}
+			}
+			if !underRev {
+				return true
+			}
+			switch x := n.(type) {
+			case *ast.AssignStmt:
+				for _, l := range x.Lhs {
+					if ix, ok := unparen(l).(*ast.IndexExpr); ok {
+						// index of the form <something> - i with i a variable: a mirrored position
+						if be, ok := unparen(ix.Index).(*ast.BinaryExpr); ok && be.Op == token.SUB {
+							if id, ok := unparen(be.Y).(*ast.Ident); ok {
+								if _, isVar := w.Use(id).(*types.Var); isVar {
+									okR = true
+								}
+							}
+						}
+					}
+				}
+			case *ast.CallExpr:
+				if fn, ok := w.Callee(x).(*types.Func); ok && fn.Name() == "Reverse" {
+					okR = true
+				}
+			}
+			return true
+		})
+	}
 	r.Check(okF, np, "pending entries ascending when iterating forward", nil, "forward order of the overlay is not `cmp < 0`")
 	r.Check(okR, np, "pending entries descending when iterating in reverse", nil, "reverse order of the overlay is not `cmp > 0`")
 	sk := w.F("badger.pendingWritesIterator.Seek")
@@ -688,7 +724,80 @@ func ruleR04_4(c *Check) {
 	}
 }
 
+func ruleR04_5(c *Check) {
+	w := c.W
+	r := c.Rule("R04.5", "E3", 2, "a transaction's pending writes live in Txn.pendingWrites and Txn.duplicateWrites only: any other Txn field that can hold entries (a cache derived from them) is written by Txn.modify on the path that stores the new entry, so that it cannot outlive an overwrite or delete of a pending key; the overlay iterator is built from pendingWrites itself",
+		"an overlay built from a copy that modify does not refresh shows the old value of a key rewritten in the transaction, keeps showing a key it deleted, or hides a re-created one")
+	txnT := w.Obj("badger.Txn").(*types.TypeName)
+	entryT := w.Obj("badger.Entry")
+	st := txnT.Type().Underlying().(*types.Struct)
+	pw, dw := w.Field("badger.Txn.pendingWrites"), w.Field("badger.Txn.duplicateWrites")
+	holdsEntries := func(t types.Type) bool {
+		found := false
+		var visit func(t types.Type, d int)
+		visit = func(t types.Type, d int) {
+			if d > 4 || found {
+				return
+			}
+			switch x := t.(type) {
+			case *types.Pointer:
+				visit(x.Elem(), d+1)
+			case *types.Slice:
+				visit(x.Elem(), d+1)
+			case *types.Array:
+				visit(x.Elem(), d+1)
+			case *types.Map:
+				visit(x.Key(), d+1)
+				visit(x.Elem(), d+1)
+			case *types.Named:
+				if x.Obj() == entryT {
+					found = true
+				}
+			}
+		}
+		visit(t, 0)
+		return found
+	}
+	mod := w.F("badger.Txn.modify")
+	n := 0
+	for i := 0; i < st.NumFields(); i++ {
+		fld := st.Field(i)
+		if !holdsEntries(fld.Type()) {
+			continue
+		}
+		n++
+		if fld == pw || fld == dw {
+			r.Check(true, mod, "entry-holding field "+fld.Name(), nil, "")
+			continue
+		}
+		// a derived copy: refreshed (stored) in modify whenever pendingWrites is stored
+		stores := mod.Sites(selStore(fld))
+		ok := len(stores) > 0
+		if ok {
+			for _, s := range mod.Sites(selStore(pw)) {
+				res := mod.Followed(Occ{V: mod.G().VertexOf(s), Node: s}, occsOf(mod, stores), exitSuccess)
+				if !res.OK && !mod.Dominated(Occ{V: mod.G().VertexOf(s), Node: s}, occsOf(mod, stores)).OK {
+					ok = false
+				}
+			}
+		}
+		r.Check(ok, mod, "entry-holding field Txn."+fld.Name()+" is kept in step with pendingWrites by modify", nil, "Txn."+fld.Name()+" can hold entries but Txn.modify does not update or invalidate it when it stores a pending write: readers of it see stale pending writes")
+	}
+	r.Exists(n >= 2, mod, "entry-holding fields of Txn", nil, "expected pendingWrites and duplicateWrites")
+	// the overlay is built from pendingWrites in the call that creates it
+	np := w.F("badger.Txn.newPendingWritesIterator")
+	ranged := false
+	np.walkDeep(func(own *Fn, n ast.Node) bool {
+		if rs, ok := n.(*ast.RangeStmt); ok && w.fieldOf(rs.X) == pw {
+			ranged = true
+		}
+		return true
+	})
+	r.Check(ranged, np, "overlay entries collected from pendingWrites", nil, "newPendingWritesIterator does not range over txn.pendingWrites")
+}
+
 func propC04(c *Check) {
+	ruleR04_5(c)
 	ruleR04_4(c)
 	ruleR04_1(c)
 	ruleR04_2(c)
